@@ -103,6 +103,8 @@ type Path struct {
 	obligs      []*Oblig
 	keptUnknown int
 	inInit      bool
+	onceDone    map[*Value]bool
+	pools       map[*Value][]Value
 	fmtCalls    int
 	shadow      []*Term          // natively evaluable equivalents of witness-carrying conjuncts
 	wdefs       map[*Term]*Term // witness variable -> defining term
@@ -745,7 +747,7 @@ func solveModelS(ss *SolverSet, base []*Term, shadow []*Term, wdefs map[*Term]*T
 			// cheap first attempt: sample the finite domain of preferred inputs and validate each
 			// candidate with the native evaluator; the solvers take over when this finds nothing
 			sampled = true
-			if m, ex, ok := sampleModel(base, shadow, wdefs, nts, extra, 4000); ok {
+			if m, ex, ok := sampleModel(base, shadow, wdefs, nts, extra, 4000, deadline); ok {
 				res.Status = "sat"
 				res.By = "sampling over preferred inputs, validated by native evaluation"
 				res.Model = map[string]string{}
@@ -1015,7 +1017,7 @@ var sampleInts = func() []string {
 // sampleModel searches the finite domain of preferred inputs for an assignment that makes every
 // assertion true under native evaluation (real library functions). It is a counterexample /
 // witness finder only: nothing is ever concluded from its failure.
-func sampleModel(base []*Term, shadow []*Term, wdefs map[*Term]*Term, nts []*Term, extra []*Term, tries int) ([]string, []string, bool) {
+func sampleModel(base []*Term, shadow []*Term, wdefs map[*Term]*Term, nts []*Term, extra []*Term, tries int, deadline time.Time) ([]string, []string, bool) {
 	vars, ufs, seen := map[*Term]bool{}, map[*Term]bool{}, map[*Term]bool{}
 	for _, a := range base {
 		a.collect(vars, ufs, seen)
@@ -1083,7 +1085,11 @@ func sampleModel(base []*Term, shadow []*Term, wdefs map[*Term]*Term, nts []*Ter
 		all, ok, ff := env.evalAll(base)
 		fmt.Fprintf(os.Stderr, "sample debug: %d conjuncts, named=%d all=%v ok=%v firstFalse=%v\n", len(base), len(nts), all, ok, ff)
 	}
+	t0 := time.Now()
 	for try := 0; try < tries; try++ {
+		if try%32 == 31 && (time.Now().After(deadline) || time.Since(t0) > 5*time.Second) {
+			break
+		}
 		env := newEvalEnv()
 		env.defs = wdefs
 		vals := make([]string, len(nts))
